@@ -12,7 +12,7 @@ From Coq Require Import List Bool Arith NArith ZArith QArith Lia.
 From DV Require Import Common.Res Common.Str Common.Jv Common.PyNum.
 From DV Require Cli.Model.
 From DV Require Import Ext.Types Ext.Classes Ext.Seq Ext.Model Ext.Spec Ext.ValidFacts Ext.ProofsValidBase
-     Ext.ProofsSimplifyCanon Ext.Ops Ext.ProofsValidOps.
+     Ext.ProofsSimplifyCanon Ext.ProofsValidMerge Ext.Ops Ext.ProofsValidOps.
 From DV Require Import Link.Abs Link.ProofsTo Link.ProofsOf Link.ProofsOps Link.ProofsCli Link.Examples.
 Import ListNotations.
 Local Open Scope nat_scope.
@@ -130,6 +130,53 @@ Proof.
     split; [left; reflexivity|]. intros e4 H4. vm_compute in H4. injection H4 as <-.
     split; [cbn; split; lia|]. intros e5 H5. exact I.
   - eexists. split; [vm_compute; reflexivity|]. repeat split; vm_compute; reflexivity.
+Qed.
+
+(** ... and WITHOUT any hypothesis on the result: the operations never invent a value or a key (provenance,
+    Link/ProofsProv.v), so when the starting extension and everything the history brings in from outside (merge
+    partners and affine argument, injected key and values: [ops_jsonable]) is JSON well formed ([jsonable]: keys are
+    strings of Unicode scalar values, values satisfy Json.wf, the affine entries render as float tokens), EVERY extension
+    the history produces is valid, is written by to_json and read back by from_json (both with the real check_valid)
+    to the very same content *)
+Theorem C07_closure_reloads :
+  forall (qtok : Q -> str) (veqb : jv -> jv -> bool),
+    (forall v, veqb v v = true) ->
+    forall (ops : list (op jv)) (e r : ext jv),
+      valid e -> nondegenerate e -> ops_dom veqb JNull ops e -> jsonable qtok e -> ops_jsonable qtok ops ->
+      run veqb JNull ops e = Ok r ->
+      valid r /\ nondegenerate r /\ jsonable qtok r /\
+      JM.to_json CM.check_valid (to_content qtok r) = Ok (JM.print (to_content qtok r)) /\
+      JM.from_json CM.check_valid (JM.print (to_content qtok r)) = Ok (to_content qtok r).
+Proof. exact closure_reloads. Qed.
+
+Definition lx5_p0 : ext jv := match get_subset jv_eqb JNull lx5 4 0 with Ok r => r | Err _ => lx5 end.
+Definition lx_ops2 : list (op jv) :=
+  [OSubset 4 1; OMerge [lx5_p0] [] 4 (Some lx_aff) None; OFilter (fun k _ => key_eqb k kv); OClearSlices;
+   OInject GConst [110]%N [JStr [252]%N] false; OSubset 3 2].
+
+Example C07_closure_reloads_nonvacuous :
+  valid lx5 /\ nondegenerate lx5 /\ ops_dom jv_eqb JNull lx_ops2 lx5 /\ jsonable qtok_dec lx5 /\ ops_jsonable qtok_dec lx_ops2 /\
+  exists r, run jv_eqb JNull lx_ops2 lx5 = Ok r /\ shape (hdr_of r) = [2; 2; 2; 1; 2] /\
+            map fst (entries r) = [kt; kc; [110]%N].
+Proof.
+  split; [apply lx5_ok|]. split; [apply lx5_ok|]. split; [|split; [|split]].
+  - unfold lx_ops2. cbn [ops_dom].
+    split; [cbn; split; lia|]. intros e1 H1. vm_compute in H1. injection H1 as <-.
+    split.
+    { cbn [op_dom]. split.
+      - intros x [<-|[]]. apply valid_of_b; vm_compute; reflexivity.
+      - cbn [app merge_dom]. split; [reflexivity|]. intros e [<-|[<-|[]]]; split; vm_compute; reflexivity. }
+    intros e2 H2. vm_compute in H2. injection H2 as <-.
+    split; [exact I|]. intros e3 H3. vm_compute in H3. injection H3 as <-.
+    split; [exact I|]. intros e4 H4. vm_compute in H4. injection H4 as <-.
+    split; [left; reflexivity|]. intros e5 H5. vm_compute in H5. injection H5 as <-.
+    split; [cbn; split; lia|]. intros e6 H6. exact I.
+  - split; vm_compute; reflexivity.
+  - unfold lx_ops2, ops_jsonable. cbn [ProofsProv.ops_ok ProofsProv.op_ok]. repeat split.
+    + constructor; [|constructor]. apply jsonable_inv. split; vm_compute; reflexivity.
+    + intros a [= <-]. vm_compute. reflexivity.
+    + constructor; [vm_compute; reflexivity | constructor].
+  - eexists. split; [vm_compute; reflexivity|]. split; vm_compute; reflexivity.
 Qed.
 
 (** nitool inject: the command-line model of C19 on the view of a valid extension and the extension-level model
